@@ -41,11 +41,11 @@ LENGTHS = [0.0, 1e-6, 1e-3, 0.05, 0.3, 1.0, 3.0, 10.0]
 
 def gen_cases(rng, tier):
     cases = []
-    draws = 2 if tier == "quick" else 12
+    draws = 2 if tier == "quick" else 40
     for model in ALL_MODELS:
         for _ in range(draws):
             cases.append({"kind": "lf", "model": model, "seed": rng.randrange(2**32), "n": 2 if M.kind_of(model) != "nuc" else 5})
-    nadv = 16 if tier == "quick" else 120
+    nadv = 16 if tier == "quick" else 800
     for _ in range(nadv):
         cases.append({"kind": "adversarial", "seed": rng.randrange(2**32), "n": 12})
     return cases
